@@ -25,6 +25,7 @@ META = {
 
 MIX2 = [[['id', 'mono2'], ['const', 'id']], [['sin', 'id'], ['id', 'cos']]]
 MIX3 = [[['id', 'mono2'], ['const', 'id'], ['id', 'mono3']]]
+MIX4 = [['id', 'mono2'], ['const', 'id'], ['id', 'mono3'], ['const', 'mono2']]
 
 
 def _sym_point(ctx, d, name='t'):
@@ -123,14 +124,16 @@ def _rm_grid(tier):
     out = []
     for rev in (False, True):
         for d in (1, 2):
-            for mix in MIX2[:1] + MIX3 + ([MIX2[1]] if tier != 'quick' else []):
-                for m in (1, 2):
+            for mix in MIX2[:1] + MIX3 + ([MIX2[1], MIX4] if tier != 'quick' else []):
+                for m in (1, 2) if tier == 'quick' or mix == MIX2[1] else (1, 2, 3):
                     for rw in (False, True):
                         if rev and rw and m == 1:
                             continue
                         if tier == 'quick' and len(mix) == 3 and (d == 2 or m == 2):
                             continue
                         for d2 in sorted(set([d, d + 1, max(1, d - 1)])):
+                            if mix == MIX2[1] and not rev and d == 2 and d2 == 3:
+                                continue        # trigonometric basis, non-square sigma, non-reversible: 300 s at one snapshot, not finished at two
                             out.append({'rev': rev, 'd': d, 'd2': d2, 'mix': mix, 'm': m, 'reweight': rw})
     return out
 
@@ -185,7 +188,7 @@ def reduced_matrix(ctx, rev, d, d2, mix, m, reweight):
     r = ranks[p]
     sinv_diag = ctx.input('sinv', (r,), False)
     V = ctx.input('V', (m, r), False)
-    w = [4.0, 9.0][:m] if reweight else None
+    w = [4.0, 9.0, 16.0][:m] if reweight else None
     label = 'reduced matrix == dense projected generator matrix (%s%s)' % ('reversible' if rev else 'non-reversible', ', reweighted' if reweight else '')
     if ctx.mode == 'conc':
         sinv = np.diag(np.asarray(sinv_diag))
